@@ -7,6 +7,7 @@ import (
 	"go/ast"
 	"go/constant"
 	"go/token"
+	"go/types"
 	"regexp"
 	"strings"
 )
@@ -210,6 +211,91 @@ func c06c(c *Ctx, r *Report, st *Staged) {
 			}
 			r.Check(bad == "", clause, "R4 DRIVER", name+"/error-class", sk.pos(d.loop.Pos()),
 				"a == ERROR_ACTION → panic(\"Grammar error…\") with no push, reduce or token fetch on the way", bad)
+			// the report itself must not be able to fault: building the message in the error branch (and in the skeleton
+			// functions it calls) performs no indexing, slicing, dereference, unchecked assertion or division — an error
+			// met before anything was consumed (position 0, empty stack of values) would otherwise surface as a runtime
+			// error instead of the documented panic
+			{
+				var faults []string
+				pm := parentMap(d.fn.Body)
+				seenFn := map[*ast.FuncDecl]bool{}
+				var scan func(n ast.Node, where string, depth int)
+				scan = func(n ast.Node, where string, depth int) {
+					ast.Inspect(n, func(m ast.Node) bool {
+						switch x := m.(type) {
+						case *ast.FuncLit:
+							return false
+						case *ast.IndexExpr:
+							if tv, ok := sk.Info.Types[x.X]; ok {
+								if _, isMap := tv.Type.Underlying().(*types.Map); isMap {
+									return true
+								}
+								if tv.IsType() { // generic instantiation
+									return true
+								}
+							}
+							faults = append(faults, where+" indexes `"+oneLine(printNode(sk.Fset, x))+"`")
+						case *ast.SliceExpr:
+							faults = append(faults, where+" slices `"+oneLine(printNode(sk.Fset, x))+"`")
+						case *ast.StarExpr:
+							if tv, ok := sk.Info.Types[x]; ok && !tv.IsType() {
+								faults = append(faults, where+" dereferences `"+oneLine(printNode(sk.Fset, x))+"`")
+							}
+						case *ast.TypeAssertExpr:
+							if _, commaOk := pm[x].(*ast.AssignStmt); !commaOk && x.Type != nil {
+								faults = append(faults, where+" asserts `"+oneLine(printNode(sk.Fset, x))+"`")
+							}
+						case *ast.BinaryExpr:
+							if x.Op == token.QUO || x.Op == token.REM {
+								if tv, ok := sk.Info.Types[x.Y]; !ok || tv.Value == nil {
+									faults = append(faults, where+" divides by `"+oneLine(printNode(sk.Fset, x.Y))+"`")
+								}
+							}
+						case *ast.CallExpr:
+							if depth < 2 {
+								if fn := callee(sk.Info, x); fn != nil && fn.Pkg() == sk.Pkg {
+									for _, dd := range sk.File.Decls {
+										if fd, ok := dd.(*ast.FuncDecl); ok && fd.Body != nil && sk.Info.Defs[fd.Name] == types.Object(fn) && !seenFn[fd] && fd.Name.Name != "GetToken" {
+											seenFn[fd] = true
+											scan(fd.Body, fd.Name.Name, depth+1)
+										}
+									}
+								}
+							}
+						}
+						return true
+					})
+				}
+				nErr := 0
+				for _, p := range eps {
+					if p.Kind != "panic" || p.Node == nil {
+						continue
+					}
+					// the branch taken on the error code: the innermost block around the panic that hangs off an if / case
+					var branch ast.Node
+					for cur := ast.Node(p.Node); cur != nil; cur = pm[cur] {
+						if blk, ok := cur.(*ast.BlockStmt); ok {
+							if _, isIf := pm[blk].(*ast.IfStmt); isIf {
+								branch = blk
+								break
+							}
+						}
+						if cc, ok := cur.(*ast.CaseClause); ok {
+							branch = cc
+							break
+						}
+					}
+					if branch == nil {
+						branch = p.Node
+					}
+					nErr++
+					scan(branch, "the error branch", 0)
+				}
+				sortStrings(faults)
+				r.Check(len(faults) == 0 && nErr > 0, clause, "R4 DRIVER", name+"/error-report-cannot-fault", sk.pos(d.loop.Pos()),
+					"the error branch and the skeleton functions it calls build the message without indexing, slicing, dereferencing, asserting or dividing",
+					"reporting a syntax error can itself fail with a runtime error (not the documented `Grammar error` panic) — "+strings.Join(dedupStrings(faults), "; "))
+			}
 			// accept class
 			aps := d.classPaths(d.accConst)
 			bad = ""
